@@ -1722,6 +1722,9 @@ def setup_amhl(
     tert(type(seed) is bytes, 'seed must be bytes')
     tert(type(pubkeys) in (tuple, list), 'pubkeys must be list or tuple of bytes|VerifyKey')
     pubkeys = [_pubkey(pk) for pk in pubkeys]
+    if type(refund_pubkeys) is dict:
+        # the hops are looked up by their bytes form below
+        refund_pubkeys = {_pubkey(pk): v for pk, v in refund_pubkeys.items()}
     n = len(pubkeys)
     setup = AMHL.setup(n, seed)
     result = {}
